@@ -1,5 +1,10 @@
 ---- MODULE MC_SchemaTree ----
-EXTENDS SchemaTree
+EXTENDS SchemaTree, Json
 NamesDef == {"a", "b", "c", "d"}
 WordsDef == {"a", "b", "c", "d", "x"}
+\* generation of schema SHAPES for generated schemas: every labelled tree (incl. value-taking nodes that also have named
+\* children); the driver keeps one per shape and packs them into one library schema
+Names3 == {"a", "b", "c"}
+Words3 == {"a", "b", "c", "x"}
+EmitTree == PrintT("@@EMIT@@" \o ToJson([n |-> n, par |-> par, name |-> name, tv |-> tv]))
 ====
